@@ -143,7 +143,8 @@ def family(tier):
     seen, out = set(), []
     for p in progs:
         k = json.dumps(p, sort_keys=True)
-        if k not in seen:
+        # PLang numbers a task's own exception 10000 + 100 t + k; from t = 10 on that runs into the ids of other exception classes
+        if k not in seen and len(p["tasks"]) <= 9:
             seen.add(k)
             out.append(p)
     return out
@@ -201,7 +202,7 @@ def trigger_of(kind, case, got):
     if kind in ("asyncio_outcome", "asynq_outcome"):
         eng = "asyncio" if kind == "asyncio_outcome" else "asynq"
         g = got[eng]["out"] if isinstance(got, dict) else {"g": "?"}
-        return "%s->%s" % (exp["g"], g["g"])
+        return "%s->%s" % (exp["g"], g["g"]) + ("" if case.get("pre", "none") == "none" else "@after_" + case["pre"])
     if kind == "mode_after":
         return "after_" + exit_path(case["prog"], exp)
     return "in_body"
@@ -252,13 +253,19 @@ def main():
             if len(lst) != 1 or lst[0]["out"] != lst[0]["ref"] or lst[0]["mode_after"] or not lst[0]["refused"]:
                 raise MachineryError("AsyncioBridge.tla does not prescribe one outcome for program %d: %s" % (i, json.dumps(lst)[:600]))
         seeds = TIERS[tier]["seeds"]
-        cases = [{"id": (i * len(seeds) + j), "prog": p, "seed": s, "exp": exp[i + 1][0]["ref"]}
-                 for i, p in enumerate(progs) for j, s in enumerate(seeds)]
+        # seed 0 = plain functions only (no registry): no pre-history; other seeds: every pre-history the spec lists
+        cases = []
+        for i, p in enumerate(progs):
+            pres = sorted(exp[i + 1][0]["pres"], key=["none", "created", "computed", "other"].index)
+            for s in seeds:
+                for pre in (pres if s else ["none"]):
+                    cases.append({"id": len(cases), "pi": i, "prog": p, "seed": s, "pre": pre, "exp": exp[i + 1][0]["ref"]})
         total = 0
         nmis = 0
         states, trans = res.distinct, res.generated
         traces_ok = 0
         distinct_orders = 0
+        dedup_runs = {}
         flav = set()
         used_aio = 0
         for bname, bdir in builds.items():
@@ -280,12 +287,14 @@ def main():
                     r = json.loads(line)
                     traces[r["id"]] = r["trace"]
                     flav.update(r["flavours"])
+                    if "dedup" in r["flavours"] or "dedupm" in r["flavours"]:
+                        dedup_runs[cases[r["id"]]["pre"]] = dedup_runs.get(cases[r["id"]]["pre"], 0) + 1
                     used_aio += r["used_aio"]
             if len(traces) != len(cases):
                 raise MachineryError("%d traces for %d cases" % (len(traces), len(cases)))
             groups = {}         # runs of one program that showed the same step order are validated once
             for i in sorted(traces):
-                groups.setdefault((i // len(seeds), json.dumps(traces[i])), []).append(i)
+                groups.setdefault((cases[i]["pi"], json.dumps(traces[i])), []).append(i)
             reps = sorted(g[0] for g in groups.values())
             hs2, res2 = run_spec([{"prog": cases[i]["prog"], "trace": traces[i]} for i in reps], sc, "traces-%s.json" % bname)
             states += res2.distinct
@@ -319,12 +328,12 @@ def main():
                         for i in (0, len(cases) // 3, len(cases) - 1)],
             "programs": len(progs), "seeds": list(seeds), "runs_per_engine": total, "builds": list(builds),
             "states_free_exploration": res.distinct, "features": feats, "root_exit_paths": exits,
-            "realisations": sorted(flav), "distinct_step_orders_validated": distinct_orders, "explicit_asyncio_fn_runs": used_aio,
+            "realisations": sorted(flav), "runs_with_deduplicated_task_by_prehistory": dedup_runs, "distinct_step_orders_validated": distinct_orders, "explicit_asyncio_fn_runs": used_aio,
             "model_invariants": ["InFragment", "SameOutcome", "AwaitedToCompletion", "ModeConfined", "SyncRefused"],
             "model_ok": res.ok, "mismatching_cases": nmis, "violation_signatures": sigs,
-            "evaluations": total * 2, "distinct_nontrivial": nontriv,
+            "evaluations": total + sum(1 for c in cases if c["pre"] == "none") * len(builds), "distinct_nontrivial": nontriv,
             "rule": "every program with a root of one yield over %d structures (or two yields over %d) x catch x return/raise, plus %d "
-                    "sampled programs of up to %d tasks; each run with %d realisation seeds through asyncio and asynq; "
+                    "sampled programs of up to %d tasks; each run with %d realisation seeds (x 4 asynq-mode pre-histories for seeds > 0) through asyncio, and through asynq; "
                     "non-trivial = at least 3 tasks" % (len(structs(TIERS[tier]["rich"])), len(small_structs(TIERS[tier]["rich"])),
                                                          TIERS[tier]["random"], TIERS[tier]["ntasks"][1], len(seeds)),
             "exhaustive": True,
